@@ -135,9 +135,50 @@ def parse_tlc(text):
         m = re.search(r"Error: (.*)", text)
         r["error"] = m.group(1) if m else "unknown TLC failure"
     # per-action coverage:  <Name line ..., col ... of module M>: distinct:generated
-    for m in re.finditer(r"^<(\w+) line \d+, col \d+ to line \d+, col \d+ of module (\w+)>: (\d+):(\d+)", text, re.M):
+    for m in re.finditer(r"^<(\w+) line \d+, col \d+ to line \d+, col \d+ of module (\w+)[^>]*>: (\d+):(\d+)", text, re.M):
         r["coverage"][m.group(1)] = r["coverage"].get(m.group(1), 0) + int(m.group(4))
+    # sub-actions (definitions used inside the top-level actions): an action counts as taken when its last
+    # top-level conjunct was evaluated at least once
+    sub = {}
+    for m in re.finditer(r"^\s+\|*line (\d+), col (\d+) to line \d+, col \d+ of module (\w+): (\d+)", text, re.M):
+        sub.setdefault(m.group(3), []).append((int(m.group(1)), int(m.group(2)), int(m.group(4))))
+    for mod, lines in sub.items():
+        for name, (a, b) in action_ranges(mod).items():
+            inside = [x for x in lines if a < x[0] < b]
+            if not inside:
+                continue
+            mincol = min(x[1] for x in inside)
+            top = [x for x in inside if x[1] == mincol]
+            last = max(x[0] for x in top)
+            cnt = max(x[2] for x in top if x[0] == last)
+            r["coverage"][name] = max(r["coverage"].get(name, 0), cnt)
     return r
+
+
+_ranges = {}
+
+
+def action_ranges(module):
+    """{definition name: (first line, line of the next definition)} of SPEC/<module>.tla"""
+    if module in _ranges:
+        return _ranges[module]
+    res = {}
+    path = os.path.join(SPEC, module + ".tla")
+    if os.path.exists(path):
+        defs = []
+        with open(path) as f:
+            for i, line in enumerate(f, 1):
+                m = re.match(r"^(\w+)(\([^)]*\))?\s*==", line)
+                if m:
+                    defs.append((m.group(1), i))
+                elif line.startswith("====") or line.startswith("----"):
+                    defs.append((None, i))
+        for k, (name, ln) in enumerate(defs):
+            if name:
+                nxt = defs[k + 1][1] if k + 1 < len(defs) else ln + 10000
+                res[name] = (ln, nxt)
+    _ranges[module] = res
+    return res
 
 
 def tlc(module, cfg_path, name, workers=8, timeout=900, env=None, extra=(), coverage=False, java_opts=None, heap="6g"):
@@ -408,7 +449,7 @@ class Check:
     # ---- model checking
     def mc(self, module, cfg_name, consts, subst=None, invariants=(), properties=(), spec=None, init="MCInit", next_="MCNext", deadlock=True,
            expect="pass", workers=8, timeout=900, view=None, constraint=None, required_actions=(), extra=(), heap="6g"):
-        name = "%s_%s" % (self.prop, cfg_name)
+        name = "%s_%s_%s" % (self.prop, module, cfg_name)
         cfg = os.path.join(WORK, "tlc", name + ".cfg")
         if spec:
             write_cfg(cfg, consts, spec=spec, invariants=invariants, properties=properties, deadlock=deadlock, view=view, constraint=constraint, subst=subst)
